@@ -28,6 +28,7 @@ func main() {
 	n := fs.Int("n", 200, "")
 	tier := fs.String("tier", "quick", "")
 	out := fs.String("out", "", "")
+	replay := fs.String("replay", "", "")
 	fs.Parse(os.Args[2:])
 	f, ok := suites[prop]
 	if !ok {
@@ -35,6 +36,7 @@ func main() {
 		os.Exit(2)
 	}
 	c := vh.New(prop, corr[prop], *seed, *n, *tier, *out)
+	c.Replay = *replay
 	f(c)
 	c.Finish()
 }
